@@ -133,19 +133,28 @@ theorem exchange_evs (s : Stack) (a : Nat) : ∀ e ∈ (exchange s a).2, e.isRai
   unfold exchange
   split <;> simp [Ev.isRaised]
 
+theorem download_evs (s : Stack) (a : Nat) (r : Resp) : ∀ e ∈ (download s a r).2, e.isRaised = true := by
+  unfold download
+  split
+  · simp
+  · split
+    · simp
+    · split <;> simp [Ev.isRaised]
+
 theorem clientRoundTrip_inRT (s : Stack) (a : Nat) : ∀ e ∈ (clientRoundTrip s a).evs, e.inRT = true := by
   unfold clientRoundTrip
   split
   · simp [Ev.inRT]
   · intro e he
     simp only [List.mem_cons, List.mem_append] at he
-    rcases he with (((rfl | he) | he) | he) | he
+    rcases he with ((((rfl | he) | he) | he) | he) | he
     · rfl
     · exact raised_inRT (exchange_evs _ _ e he)
     · exact raised_inRT (autoRead_evs _ _ e he)
     · rcases parseResp_evs _ _ e he with h | ⟨c, rfl⟩
       · exact raised_inRT h
       · rfl
+    · exact raised_inRT (download_evs _ _ _ e he)
     · exact clientLoop_inRT _ _ _ e he
 
 theorem filter_nil_of_forall {p : Ev → Bool} {l : List Ev} (h : ∀ e ∈ l, p e = false) : l.filter p = [] := by
@@ -167,6 +176,7 @@ theorem clientRoundTrip_exch (s : Stack) (a : Nat) :
       rcases parseResp_evs _ _ e he with h | ⟨c, rfl⟩
       · cases e <;> simp_all [Ev.isRaised, Ev.isExch]
       · rfl)]
+    rw [filter_of_all_raised Ev.isExch (by intro e he; cases e <;> simp_all [Ev.isRaised, Ev.isExch]) _ (download_evs _ _ _)]
     rw [clientLoop_exch]
     rw [filter_of_all_raised Ev.isExch (by intro e he; cases e <;> simp_all [Ev.isRaised, Ev.isExch]) _ (exchange_evs _ _)]
     simp [Stack.clientAt, List.range_eq_range']
@@ -210,7 +220,7 @@ def StepOut.evs : StepOut → List Ev
 theorem raised_inStep {e : Ev} (h : e.isRaised = true) : e.inStep = true := by
   cases e <;> simp_all [Ev.isRaised, Ev.inStep]
 
-theorem rebind_evs (s : Stack) (r : Resp) : ∀ e ∈ (rebind s r).evs, e.inStep = true := by
+theorem rebind_evs (s : Stack) (a : Nat) (r : Resp) : ∀ e ∈ (rebind s a r).evs, e.inStep = true := by
   have hrp : ∀ e, (e = Ev.resend ∨ e ∈ (autoRead s r).2) ∨ e ∈ (parseResp s (autoRead s r).1).evs → e.inStep = true := by
     intro e he
     rcases he with (rfl | he) | he
@@ -221,7 +231,17 @@ theorem rebind_evs (s : Stack) (r : Resp) : ∀ e ∈ (rebind s r).evs, e.inStep
       · rfl
   unfold rebind
   simp only []
-  split <;> simp only [StepOut.evs, List.mem_cons, List.mem_append] <;> exact hrp
+  split
+  · simp only [StepOut.evs, List.mem_cons, List.mem_append]; exact hrp
+  · split
+    · split
+      · simp only [StepOut.evs, List.mem_cons, List.mem_append, List.mem_singleton]
+        intro e he
+        rcases he with he | he
+        · exact hrp e he
+        · simp only [List.not_mem_nil, or_false] at he; subst he; rfl
+      · simp only [StepOut.evs, List.mem_cons, List.mem_append]; exact hrp
+    · simp only [StepOut.evs, List.mem_cons, List.mem_append]; exact hrp
 
 theorem digestResend_evs (fx : Fixes) (s : Stack) (a : Nat) (r : Resp) (re : TOut) :
     ∀ e ∈ (digestResend fx s a r re).evs, e.inStep = true := by
@@ -230,7 +250,7 @@ theorem digestResend_evs (fx : Fixes) (s : Stack) (a : Nat) (r : Resp) (re : TOu
   | resp h =>
     simp only [digestResend]
     split
-    · exact rebind_evs _ _
+    · exact rebind_evs _ _ _
     · simp [StepOut.evs, Ev.inStep]
 
 theorem digestStep_evs (fx : Fixes) (s : Stack) (a : Nat) (ok : Bool) (re : TOut) (r : Resp) :
@@ -449,15 +469,13 @@ theorem attempt_rresp (fx : Fixes) (s : Stack) (a : Nat) (prev : Option Resp)
 
 /-- Every element of `do`'s attempt list is an `attempt`, the i-th one with index `a + i`. -/
 theorem doLoop_atts (fx : Fixes) (s : Stack) :
-    ∀ rem a prev i t, (doLoop fx s rem a prev).atts[i]? = some t → ∃ prev', t = attempt fx s (a + i) prev' := by
-  intro rem
-  induction rem with
+    ∀ fuel a prev i t, (doLoop fx s fuel a prev).atts[i]? = some t → ∃ prev', t = attempt fx s (a + i) prev' := by
+  intro fuel
+  induction fuel with
   | zero =>
     intro a prev i t h
-    simp only [doLoop] at h
-    split at h <;> simp only [crashOut, stopOut] at h <;>
-      (cases i <;> simp at h; subst h; exact ⟨prev, rfl⟩)
-  | succ rem ih =>
+    simp [doLoop, exhaustedOut] at h
+  | succ fuel ih =>
     intro a prev i t h
     simp only [doLoop] at h
     have single : ∀ (l : List Att), l = [attempt fx s a prev] → l[i]? = some t → ∃ prev', t = attempt fx s (a + i) prev' := by
@@ -467,22 +485,27 @@ theorem doLoop_atts (fx : Fixes) (s : Stack) :
     · split at h
       · exact single _ rfl h
       · split at h
-        · split at h
-          · exact single _ rfl h
-          · cases i with
-            | zero => simp at h; subst h; exact ⟨prev, rfl⟩
-            | succ i =>
-              simp only [List.getElem?_cons_succ] at h
-              obtain ⟨p', hp⟩ := ih _ _ _ _ h
-              exact ⟨p', by rw [hp]; congr 1; omega⟩
         · exact single _ rfl h
+        · split at h
+          · split at h
+            · exact single _ rfl h
+            · split at h
+              · exact single _ rfl h
+              · cases i with
+                | zero => simp at h; subst h; exact ⟨prev, rfl⟩
+                | succ i =>
+                  simp only [List.getElem?_cons_succ] at h
+                  obtain ⟨p', hp⟩ := ih _ _ _ _ h
+                  exact ⟨p', by rw [hp]; congr 1; omega⟩
+          · exact single _ rfl h
 
-theorem doLoop_atts_length (fx : Fixes) (s : Stack) :
-    ∀ rem a prev, 0 < (doLoop fx s rem a prev).atts.length ∧ (doLoop fx s rem a prev).atts.length ≤ rem + 1 := by
-  intro rem
-  induction rem with
-  | zero => intro a prev; simp only [doLoop]; split <;> simp [crashOut, stopOut]
-  | succ rem ih =>
+/-- The loop makes at most as many attempts as it has fuel. -/
+theorem doLoop_atts_le_fuel (fx : Fixes) (s : Stack) :
+    ∀ fuel a prev, (doLoop fx s fuel a prev).atts.length ≤ fuel := by
+  intro fuel
+  induction fuel with
+  | zero => intro a prev; simp [doLoop, exhaustedOut]
+  | succ fuel ih =>
     intro a prev
     simp only [doLoop]
     split
@@ -490,16 +513,102 @@ theorem doLoop_atts_length (fx : Fixes) (s : Stack) :
     · split
       · simp [stopOut]
       · split
-        · split
-          · simp [crashOut]
-          · have := ih (a + 1) (some (cleanup ‹Resp›))
-            simp only [List.length_cons]; omega
         · simp [stopOut]
+        · split
+          · split
+            · simp [crashOut]
+            · split
+              · simp [waitOut]
+              · have := ih (a + 1) (some (cleanup ‹Resp›))
+                simp only [List.length_cons]; omega
+          · simp [stopOut]
+
+/-- A loop that has not run out of fuel made at least one attempt. -/
+theorem doLoop_atts_pos (fx : Fixes) (s : Stack) :
+    ∀ fuel a prev, (doLoop fx s fuel a prev).exhausted = false → 0 < (doLoop fx s fuel a prev).atts.length := by
+  intro fuel
+  cases fuel with
+  | zero => intro a prev h; simp [doLoop, exhaustedOut] at h
+  | succ fuel =>
+    intro a prev _
+    simp only [doLoop]
+    split
+    · simp [crashOut]
+    · split
+      · simp [stopOut]
+      · split
+        · simp [stopOut]
+        · split
+          · split
+            · simp [crashOut]
+            · split
+              · simp [waitOut]
+              · simp
+          · simp [stopOut]
+
+/-- A bounded loop (`MaxRetries ≥ 0`) never runs out of fuel when given `MaxRetries + 1 - a`. -/
+theorem doLoop_bounded_not_exhausted (fx : Fixes) (s : Stack) (hb : s.unbounded = false) :
+    ∀ fuel a prev, a ≤ s.maxRetries → s.maxRetries + 1 ≤ a + fuel → (doLoop fx s fuel a prev).exhausted = false := by
+  intro fuel
+  induction fuel with
+  | zero => intro a prev h1 h2; omega
+  | succ fuel ih =>
+    intro a prev h1 h2
+    simp only [doLoop]
+    split
+    · rfl
+    · split
+      · rfl
+      · split
+        · rfl
+        · rename_i hcr
+          have hlt : a < s.maxRetries := by
+            simp only [cannotRetry, hb, Bool.not_false, Bool.true_and, Bool.or_eq_true, decide_eq_true_eq, not_or] at hcr
+            omega
+          split
+          · split
+            · rfl
+            · split
+              · rfl
+              · exact ih (a + 1) _ (by omega) (by omega)
+          · rfl
+
+/-- A bounded loop makes at most `MaxRetries + 1 - a` attempts, whatever the fuel. -/
+theorem doLoop_atts_bounded (fx : Fixes) (s : Stack) (hb : s.unbounded = false) :
+    ∀ fuel a prev, (doLoop fx s fuel a prev).atts.length + a ≤ s.maxRetries + 1 ∨ s.maxRetries < a ∧ (doLoop fx s fuel a prev).atts.length ≤ 1 := by
+  intro fuel
+  induction fuel with
+  | zero => intro a prev; simp only [doLoop, exhaustedOut, List.length_nil]; omega
+  | succ fuel ih =>
+    intro a prev
+    simp only [doLoop]
+    have one : ∀ l : List Att, l.length = 1 → (l.length + a ≤ s.maxRetries + 1 ∨ s.maxRetries < a ∧ l.length ≤ 1) := by
+      intro l hl; rw [hl]; omega
+    split
+    · exact one _ rfl
+    · split
+      · exact one _ rfl
+      · split
+        · exact one _ rfl
+        · rename_i hcr
+          have hlt : a < s.maxRetries := by
+            simp only [cannotRetry, hb, Bool.not_false, Bool.true_and, Bool.or_eq_true, decide_eq_true_eq, not_or] at hcr
+            omega
+          split
+          · split
+            · exact one _ rfl
+            · split
+              · exact one _ rfl
+              · rcases ih (a + 1) (some (cleanup ‹Resp›)) with h | ⟨h, _⟩
+                · left; simp only [List.length_cons]; omega
+                · omega
+          · exact one _ rfl
 
 def Out.atts : Out → List Att
   | .crash a => a
   | .ret _ _ _ a => a
   | .mustPanic _ _ a => a
+  | .exhausted a => a
 
 def Out.isCrash : Out → Bool
   | .crash _ => true
@@ -514,7 +623,9 @@ theorem run_atts (fx : Fixes) (s : Stack) : (run fx s).atts = (callDo fx s).atts
     · rfl
     · split
       · rfl
-      · split <;> rfl
+      · split
+        · rfl
+        · split <;> rfl
 
 theorem callDo_atts (fx : Fixes) (s : Stack) (i : Nat) (t : Att) (h : (callDo fx s).atts[i]? = some t) :
     ∃ prev, t = attempt fx s i prev := by
@@ -525,13 +636,35 @@ theorem callDo_atts (fx : Fixes) (s : Stack) (i : Nat) (t : Att) (h : (callDo fx
     · simp at h
     · simpa using doLoop_atts fx s _ _ _ _ _ h
 
-/-- Attempts never exceed `MaxRetries + 1`. -/
-theorem callDo_atts_length (fx : Fixes) (s : Stack) : (callDo fx s).atts.length ≤ s.maxRetries + 1 := by
+/-- Attempts never exceed `MaxRetries + 1` when `MaxRetries ≥ 0`. -/
+theorem callDo_atts_length (fx : Fixes) (s : Stack) (hb : s.unbounded = false) :
+    (callDo fx s).atts.length ≤ s.maxRetries + 1 := by
   unfold callDo
   split
   · simp
   · split
     · simp
-    · exact (doLoop_atts_length fx s _ _ _).2
+    · rcases doLoop_atts_bounded fx s hb s.fuelFor 0 none with h | ⟨h, _⟩
+      · omega
+      · omega
+
+/-- … and in every case they never exceed the fuel (the attempts the script describes). -/
+theorem callDo_atts_le_fuel (fx : Fixes) (s : Stack) : (callDo fx s).atts.length ≤ s.fuelFor := by
+  unfold callDo
+  split
+  · simp
+  · split
+    · simp
+    · exact doLoop_atts_le_fuel fx s _ _ _
+
+/-- A call with `MaxRetries ≥ 0` always comes to an end within the fuel `callDo` supplies. -/
+theorem callDo_bounded_not_exhausted (fx : Fixes) (s : Stack) (hb : s.unbounded = false) :
+    (callDo fx s).exhausted = false := by
+  unfold callDo
+  split
+  · rfl
+  · split
+    · rfl
+    · exact doLoop_bounded_not_exhausted fx s hb _ 0 none (by omega) (by simp [Stack.fuelFor, hb])
 
 end Req.Pipeline
